@@ -232,9 +232,9 @@ class DataConnection(Connection, abc.ABC):
         :raise ConnectionFailedError: raised when connection failed or timed out
         """
         adapter.info("connecting", extra=self.__dict__)
-        await self.set_state(ConnectionState.CONNECTING)
 
         try:
+            await self.set_state(ConnectionState.CONNECTING)
             async with atimeout(timeout):
                 self._reader, self._writer = await asyncio.open_connection(
                     self.hostname, self.port)
@@ -242,6 +242,12 @@ class DataConnection(Connection, abc.ABC):
         except (Exception, asyncio.TimeoutError) as exc:
             await self.disconnect(CloseReason.CONNECT_FAILED)
             raise ConnectionFailedError(f"{self.hostname}:{self.port} : failed to connect") from exc
+
+        except asyncio.CancelledError:
+            # The task making the connection was cancelled, the connection
+            # will never be opened: do not leave it behind in CONNECTING state
+            await self.disconnect(CloseReason.CONNECT_FAILED)
+            raise
 
         else:
             adapter.debug("connected", extra=self.__dict__)
